@@ -46,6 +46,8 @@ pub(crate) mod types;
 pub use machine::Machine;
 pub use machine::config::*;
 pub use machine::lib_machine::*;
+#[cfg(feature = "verif_hooks")]
+pub use machine::verif_hooks;
 
 #[cfg(target_arch = "wasm32")]
 pub mod wasm;
